@@ -38,6 +38,20 @@ Strengthening done because of this campaign (each was a miss or a weak verdict f
   the failing chain is reported as the input.
 * C15's seeded change was missed by C15's quick tier (16 chains): the quick tier now runs 96 chains
   × 8 flag sets (≈ 40 s).
+* C24's seeded change needed a PSBT shape the generator did not produce: positional shapes and the
+  oracle line `offer.oracle.positions` were added.
+* Round 2 and 3 (ids ending in `b`: a second, different change for the same property, the author being
+  told which change to avoid): C21b (the shared-output bail skipped for reinscriptions) was missed —
+  the generator only reinscribed outputs holding a single inscription and the commit oracle allowed
+  any inscribed input for a reinscription.  Now every generated world ends with a reinscription inside
+  an output that carries several inscriptions, the oracle flags a commit input carrying an
+  inscription anywhere but on the reinscribed sat, and the guard itself is modelled and proved
+  (`c21_commit_guard_sound`, request line `batch.guard`).
+* Independent of any seed: extractors read the source with comments removed (a comment added inside a
+  parsed function no longer breaks an obligation: tested by inserting 3 800 comment lines and 1 400 blank
+  lines into the tree), and a harness that no longer compiles against the working tree (rustc
+  diagnostics) is reported as a broken correspondence (`VIOLATION … no-failing-input-found`) rather
+  than as an infrastructure failure.
 """
 p = os.path.join(V, "DESIGN.md")
 s = open(p).read()
